@@ -193,7 +193,7 @@ def gen_master_ast(rng, feats):
     names = set()
     for _ in range(rng.randint(0, 6)):
         t = rng.choice(list(groups))
-        g = rng.choice(["g1", "g2", "aud,1", "日本", "a=b", " lead"])
+        g = rng.choice(["g1", "g2", "aud,1", "日本", "a=b", " lead", "NONE", "YES", "0x1F"])   # incl. ids that look like keywords / numbers
         m = {"type": t, "group": g, "name": G.qs(rng)}
         if (t, g, m["name"]) in names:
             continue
